@@ -23,7 +23,7 @@ destination address; (6) Google responses use encode(), RfcDraft13 encode_framed
 (5b) the tree the responder signs is built under the C04 level-structure facts (odd levels padded, node pairs consumed two by two, levels cleared on
 reset), so the signed ROOT is the root the returned PATH recomputes; (5c) responder typestate over the whole program: a request is added and
 responses are sent only on a responder that was reset since its last send_responses (in process_events, in helpers, in their callers), so the
-tree never holds leaves of an earlier batch; (7) add_errors runs only on the true edge of should_add_error(), which is false whenever fault_percentage == 0; the
+tree never holds leaves of an earlier batch, and the queue the responses are numbered by changes only together with the tree (queue_lockstep); (7) add_errors runs only on the true edge of should_add_error(), which is false whenever fault_percentage == 0; the
 Bernoulli ratio is (fault_percentage, 100); new_deliberately_invalid is only called from grease.
 """
 NOT_DECIDED = ("hash/signature values; number of PATH elements = depth of the batch (loop-count fact); the share of faulty "
